@@ -278,10 +278,25 @@ Fixpoint io_dispatch (fuel : nat) (idx : nat) (s : sst) : option sst :=
       end
   end.
 
+(* the watch tickit_run keeps for its duration: tickit_watch_signal(t, SIGINT, 0, &on_sigint, NULL),
+   on_sigint = tickit_stop.  It is not one of the harness's watches: its number is negative, its
+   invocation is not logged, its callback is fixed *)
+Definition INT_ID : Z := -1.
+Definition SIGINT : Z := 2.
+Definition int_watch : sgw := mkSg INT_ID SIGINT false (-1).
+Definition cb_acts (w : sgw) : list saction := if g_id w <? 0 then [SStop] else env (g_cb w).
+Definition sig_fire (s : sst) (w : sgw) (sig : Z) : sst := if g_id w <? 0 then s else semit s (g_id w) KSig EV_FIRE sig.
+
 (* tickit_evloop_invoke_sigwatches (repaired form):
+     seq = ++t->sigwalk_seq;
      for(this = t->signals; this; this = t->next_sigwatch) {
-       t->next_sigwatch = this->next;  if(this->signum == signum) call } *)
-Fixpoint sig_walk (fuel : nat) (this : option Z) (sig : Z) (s : sst) : option sst :=
+       t->next_sigwatch = this->next;
+       if(this->signum == signum && this->born < seq) call }
+   A watch registered while the walk is under way (born = seq) is passed over, wherever the
+   running watch stands in the list (fixes/C18-sigwatch-walk-snapshot.patch).  Registration
+   numbers grow with time, so "born before this walk" is "number below [bound]", the counter
+   when the walk began. *)
+Fixpoint sig_walk (fuel : nat) (bound : Z) (this : option Z) (sig : Z) (s : sst) : option sst :=
   match fuel with
   | O => None
   | S f =>
@@ -292,10 +307,10 @@ Fixpoint sig_walk (fuel : nat) (this : option Z) (sig : Z) (s : sst) : option ss
           | None => None    (* the cursor names a freed watch: cannot happen *)
           | Some w =>
               let s1 := up_cursor s (sgw_after id (sgws s)) in
-              let s2 := if g_sig w =? sig
-                        then sdo_actions (semit s1 id KSig EV_FIRE sig) (env (g_cb w))
+              let s2 := if (g_sig w =? sig) && (g_id w <? bound)
+                        then sdo_actions (sig_fire s1 w sig) (cb_acts w)
                         else s1 in
-              sig_walk f (cursor s2) sig s2
+              sig_walk f bound (cursor s2) sig s2
           end
       end
   end.
@@ -310,7 +325,7 @@ Fixpoint dispatch_sigs (fuel : nat) (sigs : list Z) (s : sst) : option sst :=
   | [] => Some s
   | sg :: r =>
       if is_watched s sg
-      then match sig_walk fuel (match sgws s with [] => None | h :: _ => Some (g_id h) end) sg s with
+      then match sig_walk fuel (snext s) (match sgws s with [] => None | h :: _ => Some (g_id h) end) sg s with
            | None => None
            | Some s1 => dispatch_sigs fuel r s1
            end
@@ -339,8 +354,7 @@ Definition stick (fuel : nat) (sleep : bool) (s : sst) : option sst :=
   iteration fuel sleep (up_running s true).
 
 (* tickit_run: evloop_run loops while(still_running); the harness calls tickit_stop from inside
-   the k-th ppoll of the run, so the k-th pass is the last at the latest.  (The SIGINT watch
-   tickit_run keeps for the duration is not modelled: no script uses that signal.) *)
+   the k-th ppoll of the run, so the k-th pass is the last at the latest. *)
 Fixpoint run_passes (fuel : nat) (k : nat) (s : sst) : option sst :=
   match k with
   | O => Some s
@@ -368,7 +382,14 @@ Definition sdo_op (fuel : nat) (os : option sst) (o : sop) : option sst :=
       | STick sl => stick fuel sl s
       | SReady fd rv => Some (up_ready s ((fd, rv) :: ready s))
       | SArrive sg => Some (up_inwait s (inwait s ++ [sg]))
-      | SRunLoop k => run_passes fuel k (up_running s true)
+      | SRunLoop k =>
+          (* the SIGINT watch is registered first and cancelled when the loop has returned (a stale
+             one is dropped first: there never is one) *)
+          let s1 := up_sgws (up_running s true) (remove_sgw INT_ID (sgws s) ++ [int_watch]) in
+          match run_passes fuel k s1 with
+          | Some s2 => Some (up_sgws s2 (remove_sgw INT_ID (sgws s2)))
+          | None => None
+          end
       end
   end.
 
